@@ -2,7 +2,8 @@
 
 PROP_MODULES = {
     'C03': ['contracts.builders', 'contracts.shared_grid', 'contracts.c03_grid'],
-    'C04': ['contracts.builders', 'contracts.shared_grid', 'contracts.c03_grid', 'contracts.c04_meta'],
+    'C04': ['contracts.builders', 'contracts.shared_grid', 'contracts.c03_grid', 'contracts.c04_meta', 'contracts.c08_creator'],
+    'C08': ['contracts.builders', 'contracts.shared_grid', 'contracts.c03_grid', 'contracts.c04_meta', 'contracts.c08_creator'],
 }
 
 # semantics assumed by the encoding (DESIGN.md section 2.4), reported in every evidence file
